@@ -965,7 +965,7 @@ class ImageBatch(DataTensor):
             padding=padding,
             align_corners=align_corners,
         )
-        return self._make_instance(data, arg)
+        return self._make_instance(data, arg[0] if len(arg) == 1 else arg)
 
     def __repr__(self) -> str:
         return type(self).__name__ + f"(data={self.tensor()!r}, grid={self.grids()!r})"
